@@ -92,7 +92,7 @@ func init() {
 		{Name: "pair-bloom", NewMachine: mkPair(func() Machine { return &bloomMem{} }, func() Machine { return &bloomRedis{} }), Gen: genC01,
 			Monitors: []Monitor{monitorPair("bloom", bloomOpName)}, OpName: bloomOpName, NoModel: true,
 			Rule: "the same history on the in-memory and the Redis-backed Bloom filter, answers compared step by step", Quick: 80, Thorough: 1500},
-		{Name: "pair-cms", NewMachine: mkPair(func() Machine { return &cmsMem{} }, func() Machine { return &cmsRedis{} }), Gen: genC12,
+		{Name: "pair-cms", NewMachine: mkPair(func() Machine { return &cmsMem{} }, func() Machine { return &cmsRedis{} }), Gen: wide(genC12),
 			Monitors: []Monitor{monitorPair("cms", cmsOpName)}, OpName: cmsOpName, NoModel: true,
 			Rule: "the same history (updates, merges, queries) on both Count-Min variants", Quick: 80, Thorough: 1500},
 		{Name: "pair-hll", NewMachine: mkPair(func() Machine { return &hllMem{} }, func() Machine { return &hllRedis{} }), Gen: genC06,
@@ -169,7 +169,7 @@ func init() {
 			Quick: 300, Thorough: 6000},
 	}
 	machineByID[2] = func() Machine { return &cmsRedis{} }
-	registry["C03"] = append(registry["C03"], Suite{Name: "cms-redis", NewMachine: func() Machine { return &cmsRedis{} }, Gen: genC03,
+	registry["C03"] = append(registry["C03"], Suite{Name: "cms-redis", NewMachine: func() Machine { return &cmsRedis{} }, Gen: wide(genC03),
 		Monitors: []Monitor{monitorCMS("redis", "C03")}, OpName: cmsOpName, Nontrivial: cmsNontrivial,
 		Rule: "as cms-mem, against the Redis-backed sketch on miniredis", Quick: 150, Thorough: 3000})
 	registry["C12"] = []Suite{
@@ -184,7 +184,7 @@ func init() {
 				return false
 			}, Rule: "case contains at least one successful merge; distinct by SHA-1 of the case",
 			Quick: 300, Thorough: 6000},
-		{Name: "cms-redis", NewMachine: func() Machine { return &cmsRedis{} }, Gen: genC12,
+		{Name: "cms-redis", NewMachine: func() Machine { return &cmsRedis{} }, Gen: wide(genC12),
 			Monitors: []Monitor{monitorCMS("redis", "C12")}, OpName: cmsOpName,
 			Rule: "as cms-mem, against the Redis-backed sketch on miniredis", Quick: 150, Thorough: 3000},
 	}
